@@ -33,6 +33,12 @@ CLAIMS.update({
  'C16': ('real OTelLineageExporter.export/_is_allowed with a symbolic allow-list (size, exact membership and wildcard-match matrix are z3 booleans); z3 proves each exported key allowed, empty list exports nothing, histogram length law for all lengths 0-4; read_allowlist on env/YAML samples',
          'trusted: stdlib fnmatch semantics; metric values concrete; bounds: 0-3 patterns, 1-3 data points'),
 })
+CLAIMS.update({
+ 'C08': ('real Filter.run life cycle over the fake ZeroMQ with symbolic injection point, exit kind, 4x4 policy pair, topology position and a symbolic virtual clock for exit_after: shutdown once iff setup completed, teardown, stop event, return/raise, exit message on every neighbour link iff policy, obeyed iff policy',
+         'trusted: fake ZeroMQ (sequential), one filter at a time (neighbours represented by the messages on its links); bounds: 3 frames, 8 injection points, 4 exit_after forms'),
+ 'C18': ('real Filter.run + real OpenFilterLineage with a capturing client; heartbeat thread under a baton so its wake-up instants are symbolic; oracle START RUNNING* one terminal, COMPLETE iff clean; the present defect is recorded per (ending, stage) in known_findings.json, any other shape is a violation',
+         'trusted: baton thread model (heartbeat observes the world only at its wait()); bounds: 6 injection points x 3 kinds + exit messages, <=2-3 heartbeat wake-ups'),
+})
 NA = {}
 props = [json.loads(l)['id'] for l in open(os.path.join(V, 'properties.jsonl'))]
 checks = []
